@@ -105,6 +105,8 @@ func (r *ClusterReconciler) reconcileLfsProxyService(ctx context.Context, cluste
 		svc.Annotations = annotations
 		if len(cluster.Spec.LfsProxy.Service.LoadBalancerSourceRanges) > 0 {
 			svc.Spec.LoadBalancerSourceRanges = append([]string{}, cluster.Spec.LfsProxy.Service.LoadBalancerSourceRanges...)
+		} else {
+			svc.Spec.LoadBalancerSourceRanges = nil
 		}
 		return controllerutil.SetControllerReference(cluster, svc, r.Scheme)
 	})
